@@ -3,6 +3,7 @@ from props.util import *
 
 KINDS = ["RSI", "FAST", "SLOW", "ROC", "ER", "PPO", "CCI", "MFI", "OBV"]
 t2_checker = "check_t2_osc"
+aux_big = True   # also run the auxiliary big-period family (periods 2500 / 4100, two ring wraps) through the bit-exact tie
 rule = ("RSI, FAST, SLOW, ROC, ER, PPO, CCI, MFI, OBV on positive prices / valid bars: (A) short sequences over small alphabets with equal "
         "neighbours, flat bars inside non-flat windows, zero volume, for periods 1..5; (B) seeded streams (walk, periodic, plateaus, gaps, "
         "tiny and huge units) with periods up to 512. Every prefix is compared bit-exactly with the float model (T1) and, for RSI, FAST, ROC, "
